@@ -4,6 +4,7 @@ import (
 	"bytes"
 	"net"
 	"sync"
+	"time"
 
 	"github.com/jackc/pgx/v5/pgproto3"
 )
@@ -35,6 +36,23 @@ type FakeServer struct {
 
 	// Hook, when set, can replace the answer to a simple query (used to plant arbitrary result sets).
 	Hook func(sql string) (*Result, bool)
+
+	noticeEvery time.Duration
+}
+
+// noticeCode marks the NoticeResponse messages of the background noise (Config.NoticeEvery).
+const noticeCode = "01VRF"
+
+// noise writes complete NoticeResponse messages to the connection until it is closed. Every flush of the
+// protocol goroutine is one Write call and so is every notice: the messages never mix.
+func (f *FakeServer) noise(rc recConn) {
+	msg, _ := (&pgproto3.NoticeResponse{Severity: "NOTICE", Code: noticeCode, Message: "verif background notice"}).Encode(nil)
+	for {
+		if _, err := rc.Write(msg); err != nil {
+			return
+		}
+		time.Sleep(f.noticeEvery)
+	}
 }
 
 type portal struct {
@@ -163,6 +181,9 @@ func (f *FakeServer) serve() {
 	be.Send(&pgproto3.ReadyForQuery{TxStatus: 'I'})
 	if be.Flush() != nil {
 		return
+	}
+	if f.noticeEvery > 0 {
+		go f.noise(rc)
 	}
 	skipToSync := false
 	for {
